@@ -154,6 +154,7 @@ def c01(ck):
             s.add("decodex", r, 0, lid, 2)
             ck.add(Exec("long-%s-%d" % (lid, k), s.lines))
     ck.validate()
+    ck.require_outcomes(["Encode:-", "Decode:0", "DecodeX:0", "Decode:7"])
     ck.assumptions += ["NFC/NFKD are supplied by utf8proc 2.8 as the injected dependency; its NFC output is compared with Python unicodedata (golden) on every composed phrase",
                        "golden word lists equal the pinned release (re-established exhaustively by check C07)"]
 
@@ -273,6 +274,7 @@ def c02(ck):
             s.add("free", 1)
         ck.add(Exec("load-check-%d" % part, s.lines))
     ck.validate()
+    ck.require_outcomes(["DecodeX:3", "DecodeX:0", "Load:3"])
     ck.exhaustive = not quick
     ck.assumptions += ["the field lemmas are exhaustive over GF(2048) x 16 positions x 120 position pairs; "
                        "gf_elem_mul2 / gf_poly_eval are observed directly (static inline in src/gf.h) and again through the public API"]
@@ -464,6 +466,7 @@ def c05(ck):
             s.add("free", 1)
         ck.add(Exec("pairs-%s" % lid, s.lines))
     ck.validate()
+    ck.require_outcomes(["DecodeX:3", "DecodeX:0", "Decode:3"])
     ck.exhaustive = not quick
 
 
@@ -537,7 +540,7 @@ def c06(ck):
     # spec -> code: TLC-generated images for every feature value (valid and with the check value off by one)
     vecs = spec_vectors(ck)
     ck.extra["tlc_generated_vectors"] = len(vecs)
-    spec_vector_execs(ck, rng, vecs, "specvec")
+    spec_vector_execs(ck, rng, vecs, "specvec", masks=(0, 7) if quick else (0, 5, 7))
     # round trip of structured seeds
     for grp in chunked([k for k in range(165) if k != 161], 30):
         s = Script()
@@ -564,6 +567,7 @@ def c06(ck):
             s.add("free", 0)
         ck.add(Exec("roundtrip-crypted-%d" % n, s.lines))
     ck.validate()
+    ck.require_outcomes(["Load:0", "Load:3", "Load:4", "Load:5", "Store:-"])
     ck.exhaustive = not quick
     ck.assumptions += ["acceptance over all 2^256 buffers is explored by the field-wise exhaustive neighbourhood of valid images "
                        "(every value of every non-secret field), constructed vectors that are non-canonical yet carry a matching check value, "
@@ -751,9 +755,9 @@ def spec_vectors(ck):
     return out
 
 
-def spec_vector_execs(ck, rng, vecs, name):
-    """The library's verdict on the specification's vectors, at every entry point, under every mask."""
-    for m in range(8):
+def spec_vector_execs(ck, rng, vecs, name, masks=range(8)):
+    """The library's verdict on the specification's vectors, at every entry point, under the given masks."""
+    for m in masks:
         for part, grp in enumerate(chunked(vecs, 24)):
             s = Script()
             s.add("enable", m)
@@ -779,7 +783,7 @@ def c10(ck):
     # spec -> code: the vectors TLC derives from the specification (the library cannot manufacture the reserved ones)
     vecs = spec_vectors(ck)
     ck.extra["tlc_generated_vectors"] = len(vecs)
-    spec_vector_execs(ck, rng, vecs, "specvec")
+    spec_vector_execs(ck, rng, vecs, "specvec", masks=(0, 5, 7) if quick else range(8))
     for rep in range(1 if quick else 12):
         sec = rand_secret(rng)
         for m in range(8):
@@ -839,6 +843,7 @@ def c10(ck):
             s.add("store", rng.below(4), 1)
         ck.add(Exec("live-across-enable-%d" % n, s.lines))
     ck.validate()
+    ck.require_outcomes(["Create:4", "Create:0", "Load:4", "Load:0", "Decode:4", "Decode:0", "DecodeX:4", "DecodeX:0", "Enable:-", "Feature:-"])
     ck.exhaustive = True
 
 
@@ -953,6 +958,7 @@ def c12(ck):
         s.add("isenc", 0)
         ck.add(Exec("spelling-%d" % i, s.lines))
     ck.validate()
+    ck.require_outcomes(["Crypt:-", "Load:0", "DecodeX:0"])
     ck.assumptions += ["passwords are decided for NFKD forms shorter than the phrase buffer (by the API's own types); longer ones are cut, "
                        "which the specification models explicitly (AsciiCut / the normaliser's bound)",
                        "utf8proc NFKD agrees with Python unicodedata on the golden password pool (checked as an environment assumption on every run)"]
@@ -1197,6 +1203,7 @@ def c09(ck):
                 s.add("env", "fail=0")
         ck.add(Exec("strings-%d" % n, s.lines))
     ck.validate()
+    ck.require_outcomes(["Decode:0", "Decode:1", "Decode:2", "Decode:3", "Decode:7", "Decode:6", "DecodeX:2", "DecodeX:0"])
     ck.assumptions += ["the relation between automatic and explicit decoding is a TLC-checked theorem of the specification "
                        "(TheoremsSplit); each of the eleven calls per string is judged against it separately"]
 
@@ -1570,6 +1577,7 @@ def c15(ck):
         ex.variant = "san"
         ck.add(ex)
     ck.validate()
+    ck.require_outcomes(["Create:6", "Decode:6", "DecodeX:6", "Load:6", "Decode:4", "DecodeX:4", "Load:4", "Load:5", "Load:3", "Decode:3", "Decode:1", "Decode:2", "Free:-"])
     ck.rule = ("evaluations = API calls recorded and judged; every constructor is run on every outcome class with the allocation "
                "request succeeding and failing (failure schedule = which requests of the call fail), model behaviours with every "
                "NULL choice are replayed, walks run under random schedules; distinct_nontrivial = distinct (operation, arguments) by hash")
@@ -1634,6 +1642,7 @@ def c18(ck):
         s.add("free", 9)
         ck.add(Exec("inject-%d" % n, s.lines))
     ck.validate()
+    ck.require_outcomes(["Inject:-", "Create:0", "Crypt:-", "Keygen:-"])
 
 
 # ----------------------------------------------------------------------------------------------- C14
@@ -1977,6 +1986,7 @@ def c16(ck):
                 ex.variant = v
                 ck.add(ex)
     ck.validate()
+    ck.require_outcomes(["Create:0", "Create:4", "Create:6", "Decode:0", "Decode:3", "Decode:6", "DecodeX:0", "Load:0", "Load:5", "Load:3", "Load:6", "Crypt:-", "Keygen:-", "Encode:-", "Free:-"])
     ck.level = "model_checking"
     ck.assumptions += ["residue is what persists in memory after the call returns (a pre-patterned, dedicated call stack is scanned; "
                        "registers and copies overwritten before return are invisible)",
